@@ -16,12 +16,12 @@ Qed.
 Section Progress.
 Variable st : static.
 Variable rank : nat -> nat.
-Hypothesis Hflat : forall i, depth st i = 1%nat.
-Hypothesis Hanc : forall i a d, In (a,d) (anc st i) -> (a < nsims st)%nat /\
+Hypothesis Hflat : forall i, (i < nsims st)%nat -> depth st i = 1%nat.
+Hypothesis Hanc : forall i a d, (i < nsims st)%nat -> In (a,d) (anc st i) -> (a < nsims st)%nat /\
    ((forall c, length c = 1%nat -> tlt c (act c d) = true) \/ ((forall c, length c = 1%nat -> act c d = c) /\ (rank a < rank i)%nat)).
-Hypothesis Hindel : forall j k d, In (k,d) (indel st j) -> (k < nsims st)%nat /\
+Hypothesis Hindel : forall j k d, (j < nsims st)%nat -> In (k,d) (indel st j) -> (k < nsims st)%nat /\
    ((forall c, length c = 1%nat -> tlt c (act c d) = true) \/ ((forall c, length c = 1%nat -> act c d = c) /\ (rank k < rank j)%nat)).
-Hypothesis Hsucc : forall i j d, In (j,d) (succ_lazy st i) \/ In (j,d) (succ_wait st i) -> (j < nsims st)%nat /\ forall c, length c = 1%nat -> act c d = c.
+Hypothesis Hsucc : forall i j d, (i < nsims st)%nat -> In (j,d) (succ_lazy st i) \/ In (j,d) (succ_wait st i) -> (j < nsims st)%nat /\ forall c, length c = 1%nat -> act c d = c.
 
 Variable s : state.
 Hypothesis HI : Inv st s.
@@ -68,8 +68,8 @@ Proof.
 Qed.
 
 (* shapes in the flat case *)
-Lemma len1 i c : In c (nexts (s i)) -> length c = 1%nat.
-Proof. intros H. destruct HI as [HS _]. rewrite <- (Hflat i). apply (HS i). unfold cands. apply in_app_iff. right; exact H. Qed.
+Lemma len1 i c : (i < nsims st)%nat -> In c (nexts (s i)) -> length c = 1%nat.
+Proof. intros Hi H. destruct HI as [HS _]. rewrite <- (Hflat i Hi). apply (HS i). unfold cands. apply in_app_iff. right; exact H. Qed.
 Lemma cur_none i : (i < nsims st)%nat -> cur (s i) = None.
 Proof. intros Hi. apply (aux_cur _ _ HA). apply HQ; exact Hi. Qed.
 
@@ -82,12 +82,12 @@ Proof.
   destruct (new_progress_in st s i) as [Hin _].
   rewrite !in_app_iff in Hin. destruct Hin as [H|[[H|H]|[H|[]]]].
   - apply (anc_cands_in st) in H as (a & d & c & Ha & -> & Hc).
-    destruct (Hanc _ _ _ Ha) as [Han Hd].
+    destruct (Hanc _ _ _ Hi Ha) as [Han Hd].
     destruct Hc as [Hc|Hc]; [|rewrite (cur_none a Han) in Hc; discriminate].
     apply tmin_spec in Hc as [Hc _].
     assert (tle tau c = true) by (apply (Hmin a); apply allc_in; auto).
     apply tle_trans with c; auto.
-    destruct Hd as [Hd|[Hd _]]; [apply tlt_tle, Hd, (len1 a), Hc | rewrite Hd; [apply tle_refl|apply (len1 a), Hc]].
+    destruct Hd as [Hd|[Hd _]]; [apply tlt_tle, Hd, (len1 a _ Han), Hc | rewrite Hd; [apply tle_refl|apply (len1 a _ Han), Hc]].
   - destruct (tmin (nexts (s i))) as [m|] eqn:E; simpl in H; [|destruct H]. destruct H as [<-|[]].
     apply tmin_spec in E as [E _]. apply (Hmin i). apply allc_in; auto.
   - rewrite (cur_none i Hi) in H. destruct H.
@@ -103,14 +103,14 @@ Proof.
   - (* some queue is non-empty: (a,tau) is a best candidate *)
     apply argmin_spec in Eam as [Hin Hbest].
     apply allc_in in Hin as [Ha Htau].
-    assert (Hl : length tau = 1%nat) by (apply (len1 a); exact Htau).
+    assert (Hl : length tau = 1%nat) by (apply (len1 a _ Ha); exact Htau).
     assert (Hmin : forall j c, In (j,c) allc -> tle tau c = true).
     { intros j c Hjc. specialize (Hbest _ Hjc). unfold better in Hbest. simpl in Hbest.
       apply orb_false_iff in Hbest as [H _]. unfold tle. rewrite H. reflexivity. }
-    assert (Hu : forall i, tle tau (until_t st i) = true).
-    { intros i. apply tlt_tle. unfold until_t, world_time. rewrite Hflat. simpl.
+    assert (Hu : forall i, (i < nsims st)%nat -> tle tau (until_t st i) = true).
+    { intros i Hi. apply tlt_tle. unfold until_t, world_time. rewrite (Hflat i Hi). simpl.
       destruct tau as [|x [|? ?]]; simpl in Hl; try discriminate. simpl.
-      pose proof (aux_bound _ _ HA a [x] Htau) as Hb. simpl in Hb. apply Z.ltb_lt in Hb. rewrite Hb. reflexivity. }
+      pose proof (aux_bound _ _ HA a [x] Ha Htau) as Hb. simpl in Hb. apply Z.ltb_lt in Hb. rewrite Hb. reflexivity. }
     assert (Hge : forall i, (i < nsims st)%nat -> tle tau (prog (s i)) = true).
     { intros i Hi. rewrite (HE i Hi). apply np_ge; auto. }
     (* prog a = tau *)
@@ -134,8 +134,8 @@ Proof.
         apply (Hmin a). apply allc_in; split; auto. }
       subst t. unfold deps_ok. apply andb_true_iff; split; [apply andb_true_iff; split|].
       * (* input predecessors *)
-        apply forallb_forall. intros [k d] Hk. destruct (Hindel _ _ _ Hk) as [Hkn Hd].
-        assert (Hlk : length (prog (s k)) = 1%nat) by (destruct HI as [HS _]; rewrite <- (Hflat k); apply (proj1 (HS k))).
+        apply forallb_forall. intros [k d] Hk. destruct (Hindel _ _ _ Ha Hk) as [Hkn Hd].
+        assert (Hlk : length (prog (s k)) = 1%nat) by (destruct HI as [HS _]; rewrite <- (Hflat k Hkn); apply (proj1 (HS k))).
         destruct Hd as [Hd|[Hd Hr]].
         -- eapply tle_tlt_trans'; [apply Hge; exact Hkn|apply Hd; exact Hlk].
         -- rewrite Hd by exact Hlk.
@@ -146,10 +146,10 @@ Proof.
               destruct (new_progress_in st s k) as [Hin _]. rewrite <- H in Hin.
               rewrite !in_app_iff in Hin. destruct Hin as [Hx|[[Hx|Hx]|[Hx|[]]]].
               ** apply (anc_cands_in st) in Hx as (a' & d' & c & Ha' & Ec & Hc).
-                 destruct (Hanc _ _ _ Ha') as [Han Hd'].
+                 destruct (Hanc _ _ _ Hkn Ha') as [Han Hd'].
                  destruct Hc as [Hc|Hc]; [|rewrite (cur_none a' Han) in Hc; discriminate].
                  apply tmin_spec in Hc as [Hc _].
-                 assert (Hlc : length c = 1%nat) by (apply (len1 a'); exact Hc).
+                 assert (Hlc : length c = 1%nat) by (apply (len1 a' _ Han); exact Hc).
                  assert (Htc : tle tau c = true) by (apply (Hmin a'); apply allc_in; auto).
                  destruct Hd' as [Hd'|[Hd' Hr']].
                  --- specialize (Hd' c Hlc). rewrite <- Ec in Hd'. unfold tle in Htc. rewrite Hd' in Htc. discriminate.
@@ -166,20 +166,20 @@ Proof.
                  apply Nat.ltb_ge in Hb. lia.
               ** rewrite (cur_none k Hkn) in Hx. destruct Hx.
               ** (* until = tau: impossible *)
-                 unfold until_t, world_time in Hx. rewrite Hflat in Hx. simpl in Hx.
-                 pose proof (aux_bound _ _ HA a tau Htau) as Hb. rewrite <- Hx in Hb. simpl in Hb. lia.
+                 unfold until_t, world_time in Hx. rewrite (Hflat k Hkn) in Hx. simpl in Hx.
+                 pose proof (aux_bound _ _ HA a tau Ha Htau) as Hb. rewrite <- Hx in Hb. simpl in Hb. lia.
            ++ exfalso. specialize (Hge k Hkn). unfold tle in Hge. rewrite H in Hge. discriminate.
       * (* async successors *)
-        apply forallb_forall. intros [j d] Hj. destruct (Hsucc a j d (or_intror Hj)) as [Hjn Hd].
+        apply forallb_forall. intros [j d] Hj. destruct (Hsucc a j d Ha (or_intror Hj)) as [Hjn Hd].
         rewrite Hd by exact Hl. apply Hge; exact Hjn.
       * destruct (lazy st); auto.
-        apply forallb_forall. intros [j d] Hj. destruct (Hsucc a j d (or_introl Hj)) as [Hjn Hd].
+        apply forallb_forall. intros [j d] Hj. destruct (Hsucc a j d Ha (or_introl Hj)) as [Hjn Hd].
         rewrite Hd by exact Hl. apply Hge; exact Hjn.
     + exfalso. assert (H : quiet_pc (pc (s a)) = true) by (apply HQ; exact Ha). rewrite Epc in H. discriminate.
     + exfalso. assert (H : quiet_pc (pc (s a)) = true) by (apply HQ; exact Ha). rewrite Epc in H. discriminate.
     + (* Done: prog >= until > tau *)
       exfalso. pose proof (HDone a Epc) as Hd. rewrite Hpa in Hd.
-      pose proof (aux_bound _ _ HA a tau Htau). lia.
+      pose proof (aux_bound _ _ HA a tau Ha Htau). lia.
   - (* all queues empty: every progress equals until, so nobody can be asleep or waiting *)
     exfalso.
     assert (Hnil : allc = []) by (destruct allc as [|x l] eqn:E; auto; simpl in Eam; destruct (argmin l); discriminate).
@@ -189,7 +189,7 @@ Proof.
     assert (Hp : prog (s k0) = until_t st k0).
     { rewrite (HE k0 Hk0). destruct (new_progress_in st s k0) as [Hin _].
       rewrite !in_app_iff in Hin. destruct Hin as [H|[[H|H]|[H|[]]]]; auto.
-      - apply (anc_cands_in st) in H as (a & d & c & Ha & _ & Hc). destruct (Hanc _ _ _ Ha) as [Han _].
+      - apply (anc_cands_in st) in H as (a & d & c & Ha & _ & Hc). destruct (Hanc _ _ _ Hk0 Ha) as [Han _].
         destruct Hc as [Hc|Hc]; [rewrite (Hempty a Han) in Hc; discriminate | rewrite (cur_none a Han) in Hc; discriminate].
       - rewrite (Hempty k0 Hk0) in H. destruct H.
       - rewrite (cur_none k0 Hk0) in H. destruct H. }
